@@ -997,8 +997,11 @@ impl<'a> GeneratorState<'a> {
                 Ok(expr_type)
             }
             Expr::Neg(v) => self.generate_neg(v, pos, high_byte),
-            // The high byte of a truth value is 0 (its operand was evaluated for the low byte)
-            Expr::Not(_) if high_byte => Ok(ExprType::Immediate(0)),
+            // The high byte of a truth value is 0 (its operand was evaluated for the low byte).
+            // The negation of a constant stays a whole constant: its bytes are taken later
+            Expr::Not(v) if high_byte && !matches!(**v, Expr::Integer(_)) => {
+                Ok(ExprType::Immediate(0))
+            }
             Expr::Not(v) => self.generate_not(v, pos),
             Expr::BNot(v) => self.generate_bnot(v, pos, high_byte),
             Expr::Deref(v) => self.generate_deref(v, pos),
